@@ -11,5 +11,5 @@ open(p,'w').write(s.replace(old,new,1))
 PY
 [ $? -eq 0 ] || { rm -rf "$D"; exit 9; }
 cd "$(dirname "$0")/.."
-VERIF_REPO="$D" VERIF_SKIP_B="${SKIPB:-1}" ./check "$ID" 2>&1 | grep -E "VIOLATION|UNPROVED|KNOWN|ENGINE|obligations" | head -${LINES_MAX:-8}
+VERIF_REPO="$D" VERIF_OUT="$D/_verif_out" VERIF_SKIP_B="${SKIPB:-1}" ./check "$ID" 2>&1 | grep -E "VIOLATION|UNPROVED|KNOWN|ENGINE|obligations" | head -${LINES_MAX:-8}
 rm -rf "$D"
